@@ -178,11 +178,30 @@ def check_case(rng, impl, quick):
                 e5[i], e5[i + 1] = e5[i + 1], e5[i]
                 edits.append(("per-mode-order", render(e5)))
                 break
+    # the same kinds of edit made on the program OBJECT (its operation list is public): a gate moved to modes the program did
+    # not use before, a renamed gate, an operation removed, an operation appended
+    import copy as _copy
+    if iops:
+        for kind in ("modes (edited in place, to unused modes)", "gate (edited in place)", "operation count (one removed in place)", "operation count (one appended in place)"):
+            ep = _copy.deepcopy(prog)
+            j = rng.randrange(len(ep._operations))
+            if kind.startswith("modes"):
+                ep._operations[j]["modes"] = [int(m) + 11 for m in ep._operations[j]["modes"]]
+            elif kind.startswith("gate"):
+                ep._operations[j]["op"] = "Zgate" if ep._operations[j]["op"] != "Zgate" else "Vgate"
+            elif "removed" in kind:
+                del ep._operations[j]
+            else:
+                ep._operations.append({"op": "Vac", "modes": [23]})
+            edits.append((kind, (ep, {"kind": kind, "index": j})))
     for kind, etext in edits:
-        try:
-            ep = impl.loads(etext)
-        except Exception:  # noqa: BLE001
-            continue
+        if not isinstance(etext, str):
+            ep, etext = etext
+        else:
+            try:
+                ep = impl.loads(etext)
+            except Exception:  # noqa: BLE001
+                continue
         try:
             match_template(t, ep)
             desc2 = dict(desc)
@@ -236,6 +255,28 @@ def replay(rep):
     from blackbird.utils import TemplateError, match_template
     inp = rep["input"]
     t = impl.loads(inp["template"])
+    if isinstance(inp.get("edited"), dict):
+        # an edit made on the program object: redo it
+        ed = inp["edited"]
+        ep = impl.loads(inp["program"])
+        j = ed["index"]
+        if ed["kind"].startswith("modes"):
+            ep._operations[j]["modes"] = [int(m) + 11 for m in ep._operations[j]["modes"]]
+        elif ed["kind"].startswith("gate"):
+            ep._operations[j]["op"] = "Zgate" if ep._operations[j]["op"] != "Zgate" else "Vgate"
+        elif "removed" in ed["kind"]:
+            del ep._operations[j]
+        else:
+            ep._operations.append({"op": "Vac", "modes": [23]})
+        try:
+            match_template(t, ep)
+            print("edited program accepted")
+            return 1
+        except TemplateError:
+            return 0
+        except Exception as e:  # noqa: BLE001
+            print(type(e).__name__)
+            return 1
     if "edited" in inp:
         try:
             match_template(t, impl.loads(inp["edited"]))
